@@ -537,3 +537,31 @@ def c19(ctx):
                   "named and random parameter sets (integral lengths, negative values, dof 5, zero J6 sign); malformed family + fuzzed "
                   "byte strings must return Err, never panic",
                   assumptions=["offsets compared to the printed precision (1e-4 degree)"])
+
+
+# ----------------------------------------------------------------------------- C20
+@check("C20")
+def c20(ctx):
+    g = tlc(ctx, "Gen_Urdf", workers=8)
+    lines = tlc_json_lines(g["out"], "urdf")
+    if not lines:
+        raise core.ToolError("Gen_Urdf printed nothing")
+    if ctx.quick:
+        import random
+        lines = random.Random(ctx.seed).sample(lines, 2000)
+    write_ndjson(ctx.path("urdf.ndjson"), lines)
+    opwv(ctx, ["replay", "urdf", ctx.path("urdf.ndjson"), ctx.path("urdf.out")])
+    st = replay_results(ctx, ctx.path("urdf.out"), "C20")
+    ctx.evaluations += st.get("evaluations", 0)
+    ctx.traces += len(lines)
+    for ln in lines:
+        ctx.nontrivial.add(json.dumps(ln, sort_keys=True))
+    ctx.exhaustive = not ctx.quick
+    return finish(ctx, rule="layout lattice (c2 on z|x, b on joint 3, c3 on joint 5 (x|z) or joint 4 (x|y), c4 on x|z) x limit syntax "
+                  "(radians, ${radians(deg)}, absent, mixed) x joint order (natural/reversed/shuffled) x nesting 0..2 x naming "
+                  "(joint1, ${prefix}JOINT_1, joint_1, ${prefix}joint_a1, explicit list) x copies (single, identical duplicate, second "
+                  "robot) enumerated by TLC with the symbolic origin vectors (Gen_Urdf: 12672 behaviours; quick = seeded sample of "
+                  "2000); the harness fills in random parameter values and axis signs, renders the XML, extracts and compares; every "
+                  "fourth behaviour also builds the solver and solves FK(q) for an in-limit q; fault variants must give Err",
+                  assumptions=["name decorations are the documented forms only", "a layout with c3 on joint 4 needs a2 != 0 (the "
+                               "single non-zero component of joint 4 is read as -a2)"])
